@@ -115,7 +115,8 @@ def gen_case(rng):
             i = rng.randrange(size)
             what = rng.choice(['nan_v_one', 'nan_v_both', 'nan_e_one',
                                'nan_e_both', 'inf_v_one', 'inf_v_both',
-                               'inf_e', 'zero_e_equal', 'zero_e_diff'])
+                               'inf_e', 'zero_e_equal', 'zero_e_diff',
+                               'zero_e_tiny_diff'])
             specials.add(what)
             k = rng.randrange(nds)
             o_v, o_e = others[k]
@@ -146,6 +147,14 @@ def gen_case(rng):
                 ref_e[i] = 0.0
                 o_e[i] = 0.0
                 o_v[i] = ref_v[i]
+            elif what == 'zero_e_tiny_diff':
+                # exact data that differ by very little: still incompatible
+                ref_e[i] = 0.0
+                o_e[i] = 0.0
+                if rng.random() < 0.5:
+                    ref_v[i] = rng.choice([0.0, 1e-9, -3e-10])
+                o_v[i] = ref_v[i] + rng.choice([1e-9, -1e-9, 1e-12, 5e-10,
+                                                1e-300])
             else:
                 ref_e[i] = 0.0
                 o_e[i] = 0.0
